@@ -230,7 +230,7 @@ def pile_models(draw):
       eq += '<tendon name="te%d" tendon1="td%d"/>' % (k, k)
   cone = draw(st.sampled_from(['pyramidal', 'elliptic']))
   solver = draw(st.sampled_from(['Newton', 'CG']))   # not PGS: see assumptions (unrelated engine error in the PGS/sparse projection)
-  xml = ('<mujoco><option jacobian="sparse" cone="%s" solver="%s" timestep="0.002"/><worldbody>'
+  xml = ('<mujoco><option jacobian="sparse" cone="%s" solver="%s" timestep="0.002"><flag island="disable"/></option><worldbody>'
          '<geom name="floor" type="plane" size="5 5 .1"/>%s</worldbody>%s%s</mujoco>') % (
              cone, solver, ''.join(bodies), '<tendon>%s</tendon>' % tend if tend else '', '<equality>%s</equality>' % eq if eq else '')
   labels = ['pile', 'cone:' + cone, 'solver:' + solver] + (['eq'] if eq else []) + (['tendon'] if tend else []) + (['eq-site'] if has_site_eq else [])
@@ -245,7 +245,7 @@ def row_trees_sparse(m, d):
 
 
 def row_trees_dense(m, d):
-  J = np.asarray(d.efc_J).reshape(int(d.nefc), m.nv) if d.nefc else np.zeros((0, m.nv))
+  J = np.asarray(d.efc_J).ravel()[:int(d.nefc) * int(m.nv)].reshape(int(d.nefc), int(m.nv)) if d.nefc else np.zeros((0, m.nv))
   tid = m.dof_treeid
   return [frozenset(int(tid[c]) for c in np.flatnonzero(J[i])) for i in range(int(d.nefc))]
 
@@ -334,6 +334,7 @@ def check_islands(lib, m, d, rows, what):
 
 
 def check_model(ck, lib, gm, seed, nsteps):
+  from vf import mj
   E = lib.enums
   try:
     m = lib.model_from_xml(gm.xml)
@@ -347,24 +348,36 @@ def check_model(ck, lib, gm, seed, nsteps):
     ck.discard('singular-inertia-at-qpos0')     # e.g. hinge + ball at the same point: NaN constraint weights, not an island question
     return
   m.opt.jacobian = E.mjJAC_SPARSE
-  m.opt.disableflags = int(m.opt.disableflags) & ~int(E.mjDSBL_ISLAND)
   m.opt.enableflags = int(m.opt.enableflags) & ~int(E.mjENBL_SLEEP)
+  # Models are compiled and stepped with island discovery DISABLED (monolithic solve) and islands are switched on only for the
+  # position stage whose result is inspected: a wrong partition is then reported by comparison, before any per-island solver
+  # consumes it (which could crash on inconsistent maps).
+  isl_off = int(m.opt.disableflags) | int(E.mjDSBL_ISLAND)
+  isl_on = isl_off & ~int(E.mjDSBL_ISLAND)
+  ck.journal(dict(xml=gm.xml, seed=seed, nsteps=nsteps))
   d = lib.make_data(m)
   if 'pile' in gm.labels():
     rng = np.random.RandomState(seed)
     d.qvel[:] = rng.uniform(-0.3, 0.3, m.nv)
   else:
     mg.apply_state(lib, m, d, seed, vel_scale=0.5, pos_scale=0.3)
-  # island discovery runs at the end of the position stage: check it there, *before* the solver consumes the island arrays
-  # (a wrong partition must be reported as such, not as a crash of the per-island solver)
+  m.opt.disableflags = isl_on
   lib.mj_fwdPosition(m, d)
   if not lib.warnings():
     check_islands(lib, m, d, row_trees_sparse(m, d), 'sparse(initial state)')
-  for _ in range(nsteps):
-    lib.mj_step(m, d)
+  m.opt.disableflags = isl_off
+  try:
+    for _ in range(nsteps):
+      lib.mj_step(m, d)
+  except mj.MjError as e:
+    # settling is only a way to reach states with contacts; a solver error on a (near-)singular generated model is not an
+    # island-discovery question (islands are disabled during these steps)
+    ck.discard('engine-error-while-settling: ' + str(e)[:40])
+    return
   if not np.all(np.isfinite(d.qpos)) or lib.warnings():
     ck.discard('unstable-or-warning')
     return
+  m.opt.disableflags = isl_on
   lib.mj_fwdPosition(m, d)
   if lib.warnings():
     ck.discard('warning')
@@ -547,7 +560,8 @@ def main(ck):
     check_model(ck, lib, gm, seed, nsteps)
   gen = st.one_of(pile_models(), pile_models(),
                   mg.models(min_bodies=3, max_bodies=9, plane=True, spread=0.6, sensors=False, actuators=False,
-                            opt_kwargs=dict(islands=None, jacobians=('sparse',), flags=False, integrators=('Euler', 'implicitfast'),
+                            joint_types=('free', 'hinge', 'slide'),     # no hinge+ball stacks (singular inertia)
+                            opt_kwargs=dict(islands=False, jacobians=('sparse',), flags=False, integrators=('Euler', 'implicitfast'),
                                             solvers=('CG', 'Newton'))))
   ck.run_hypothesis(test_model, st.tuples(gen, mg.state_seed(), st.sampled_from([0, 1, 5, 20, 40])), ck.budget(250, 5000), name='models')
 
